@@ -299,20 +299,7 @@ def rule_purity(ctx, eff):
         for (p, path, attr), node in s.attr_writes.items():
             if p in fi.params and attr in SAMPLE_FIELDS:
                 bad.append((f"{p}{path}.{attr}", node))
-        # an in-place operator on a parameter that was not rebound first (`D *= k`): numbers are immutable and get rebound, an
-        # array held by the caller is overwritten - the caller's value changes and the same call repeated gives another result
-        rebound = set()
-        for n in sorted((n for n in ast.walk(fi.node) if isinstance(n, (ast.Assign, ast.AnnAssign, ast.AugAssign, ast.For, ast.With))), key=lambda n: (n.lineno, n.col_offset)):
-            if isinstance(n, ast.AugAssign):
-                t = n.target
-                if isinstance(t, ast.Name) and t.id in fi.params and t.id not in rebound and _annotation(fi, t.id) not in ("int", "bool", "str"):
-                    bad.append((t.id, n))
-                continue
-            tgts = n.targets if isinstance(n, ast.Assign) else [n.target] if isinstance(n, (ast.AnnAssign, ast.For)) else [i.optional_vars for i in n.items if i.optional_vars is not None]
-            for tg in tgts:
-                for x in ast.walk(tg):
-                    if isinstance(x, ast.Name) and isinstance(x.ctx, ast.Store):
-                        rebound.add(x.id)
+        bad.extend(inplace_on_params(fi))
         if bad:
             for what, node in bad:
                 ctx.violation("C14.5", fi, node, f"{fi.qualname}: in-place write reaching argument data `{what}` via `{src_of(node)[:120]}`",
@@ -328,6 +315,81 @@ def rule_purity(ctx, eff):
             ctx.violation("C14.7", fi, fi.node, f"{fi.qualname}: result may alias {sorted(set(p + path for p, path in roots))}", "an output shares memory with an input buffer")
         else:
             ctx.holds("C14.7", fi, fi.node, f"{fi.qualname}: outputs", "alias no argument")
+
+
+_ALIASING = ("asarray", "asanyarray", "atleast_1d", "atleast_2d", "ravel", "reshape", "squeeze", "view", "transpose", "real", "imag")
+
+
+_ARRAYISH = {}
+
+
+def inplace_on_params(fi):
+    """[(parameter, AugAssign node)]: an in-place operator applied to a name that still refers to the caller's object (`D *= k`):
+    numbers are immutable and get rebound, an array held by the caller is overwritten - the caller's value changes and the same
+    call repeated gives another result.  A name stops referring to the caller's object when it is bound to a NEW value;
+    `p = np.asarray(p, dtype=float)`, `u = p.signal`, `phi = np.asarray(u)` are not new values (for an array of that dtype asarray
+    returns the very same object; an attribute of a signal object is the object's own array)."""
+    out = []
+    alias = {p_: p_ for p_ in fi.params if _annotation(fi, p_) not in ("int", "bool", "str")}
+    top = {id(st_) for st_ in fi.node.body}          # statements every call executes: only there does a new value END an alias
+    # parameters annotated as numbers: their plain copies are scalars; every other parameter (arrays, signal objects, unannotated) aliases by name too
+    _ARRAYISH[id(alias)] = {p_ for p_ in alias if not any(k == (_annotation(fi, p_) or "").replace(" ", "") for k in ("float", "int", "complex", "float|int", "int|float", "Number"))}
+    for n in sorted((n for n in ast.walk(fi.node) if isinstance(n, (ast.Assign, ast.AnnAssign, ast.AugAssign, ast.For, ast.With))), key=lambda n: (n.lineno, n.col_offset)):
+        if isinstance(n, ast.AugAssign):
+            t = n.target
+            if isinstance(t, ast.Name) and t.id in alias:
+                out.append((alias[t.id], n))
+            continue
+        tgts = n.targets if isinstance(n, ast.Assign) else [n.target] if isinstance(n, (ast.AnnAssign, ast.For)) else [i.optional_vars for i in n.items if i.optional_vars is not None]
+        value = getattr(n, "value", None) if isinstance(n, (ast.Assign, ast.AnnAssign)) else None
+        for tg in tgts:
+            if isinstance(tg, ast.Name):
+                root = _alias_root(value, alias)
+                if root is not None and isinstance(value, ast.Name) and root not in _ARRAYISH.get(id(alias), set()):
+                    # a plain copy of a NUMBER-typed parameter under another name (`dz = length; z = dz; z += dz`) is ordinary scalar
+                    # bookkeeping: only the parameter's own name, or a value that went through an array view / conversion, counts
+                    root = None
+                if root is not None:
+                    alias[tg.id] = root
+                elif id(n) in top:
+                    alias.pop(tg.id, None)          # (a rebinding inside a branch leaves the other paths aliased: may-alias)
+            elif id(n) in top:
+                for x in ast.walk(tg):
+                    if isinstance(x, ast.Name) and isinstance(x.ctx, ast.Store):
+                        alias.pop(x.id, None)
+    return out
+
+
+def _alias_root(value, alias):
+    """the argument whose object the assigned expression can return, or None for a new value"""
+    if isinstance(value, ast.Name):
+        return alias.get(value.id)
+    if isinstance(value, ast.Attribute) and value.attr in ("signal", "noise", "data", "T", "real", "imag"):
+        return _alias_root(value.value, alias)
+    if isinstance(value, ast.Call):
+        f = value.func
+        fn = f.attr if isinstance(f, ast.Attribute) else f.id if isinstance(f, ast.Name) else ""
+        if fn in _ALIASING:
+            if value.args:
+                r = _alias_root(value.args[0], alias)
+                if r is not None:
+                    return r
+            if isinstance(f, ast.Attribute):
+                return _alias_root(f.value, alias)
+    return None
+
+
+def rule_inplace(ctx, rule, qualnames):
+    """the in-place clause of C14.5 for the devices another property owns (composition / repeatability clauses need it)"""
+    for q in qualnames:
+        fi = ctx.pkg.func(q)
+        bad = inplace_on_params(fi)
+        if bad:
+            for p_, node in bad:
+                ctx.violation(rule, fi, node, f"{fi.qualname}: in-place operator on the argument `{p_}` via `{src_of(node)[:80]}`",
+                              "an array passed for this argument is overwritten in the caller: the same call repeated (or composed with itself) no longer gives the same result")
+        else:
+            ctx.holds(rule, fi, fi.node, f"{fi.qualname}: no in-place operator on an argument", "parameters are rebound to new values before any in-place update")
 
 
 def _annotation(fi, p):
